@@ -571,7 +571,7 @@ fn main() {
                 }
             }
             cr.count("tuples_rel12", n);
-            cr.violations.truncate(3);
+            limit(&mut cr.violations, 3);
             cr.shape = Some(util::fnv(&format!("a|{}|{}|{}|{}|{}", cw, sw, tw, fec, flags)));
             cr.states = vec![util::fnv(&format!("{}|{}|{}", cw, sw, tw))];
             cr
@@ -651,7 +651,7 @@ fn main() {
                 }
             }
             cr.count("tuples_rel3", n);
-            cr.violations.truncate(3);
+            limit(&mut cr.violations, 3);
             cr.shape = Some(util::fnv(&format!("b|{}|{}|{:?}|{}|{}|{}", tsi, toi, cls, c, fec, flags)));
             cr.states = vec![util::fnv(&format!("{:?}|{}", cls, c))];
             cr
@@ -681,7 +681,7 @@ fn main() {
                 check_ref_enc(&x, &ex, &mut cr.violations);
             }
             cr.count("tuples_rel3", 2);
-            cr.violations.truncate(2);
+            limit(&mut cr.violations, 2);
             cr.shape = Some(util::fnv(&format!("c|{}|{}", hel, fec)));
             if hel == 65 {
                 cr.sample = Some(json!({"hel": hel, "fec": fec, "x": x.json()}));
@@ -704,7 +704,7 @@ fn main() {
                 check_ref_enc(&x, &ex, &mut cr.violations);
             }
             cr.count("sct_values", 100);
-            cr.violations.truncate(3);
+            limit(&mut cr.violations, 3);
             cr.shape = Some(util::fnv(&format!("d|{}", i)));
             cr
         }));
@@ -758,7 +758,7 @@ fn main() {
                 (r, f) => cr.violations.push(Violation::new("close_session", format!("close-session packet not decodable: {:?} {:?}", r.err(), f.err().map(|p| p.msg))).witness(json!({"bytes": hex(&cs)}))),
             }
             cr.count("lct_headers", n);
-            cr.violations.truncate(3);
+            limit(&mut cr.violations, 3);
             cr.shape = Some(util::fnv(&format!("e|{}|{}|{}", cw, sw, tw)));
             cr
         }));
